@@ -158,8 +158,8 @@ PROP = dict(
     harness_timeout=2400,
     coqc_timeout=3000,      # per shard; ~10 s of CPU, but the machine is shared
 
-    rule="inputs drawn from 2-D and 3-D grids (sides 1..12, incl. 1 x n, n x 1, 1 x 1 x n, cubes, and long thin 2-D grids up "
-         "to 8 x 100; at most 600 cells in the quick tier, 1728 in the thorough tier), iter_count 0..6, three weight streams: "
+    rule="inputs drawn from 2-D and 3-D grids (sides 1..12, incl. 1 x n, n x 1, 1 x 1 x n, cubes, long thin 2-D grids up "
+         "to 8 x 100, and a few grids with MORE THAN 1024 slabs on one axis (1xN, 2xN, Nx1, 1x1xN, N in 1025..6000); at most 600 cells in the quick tier, 1728 in the thorough tier), iter_count 0..6, three weight streams: "
          "(a) i64 -- 11 families (uniform, sparse, skewed, all-zero, one dominant, random, gradient, two clusters, large < 2^46, "
          "huge <= 2^52, giant <= 2^61) plus band-edge inputs (totals 2^57..2^62 whose chunk boundary sits exactly on the accepted band's edge; the first group of every run is the fixed witness of the known finding); every i64 input with total >= 2^46 is run twice: tagged with the known-finding class and judged by the LITERAL clause, then as an untagged twin judged by the proved clause; (b) f64 multiples of 2^-k, whose sums are exact whatever rayon's association -- the "
          "integer families at k = 0 and 7 fractional families (uniform in [0,1) on a 2^-k grid, normalised to sum exactly 1, "
